@@ -133,6 +133,23 @@ def main():
     else:
         vals["timeoutMax"] = 255; degraded.append("timeoutGuard")
 
+    # flag spellings: the string patterns of the `match arg.as_str()` arms of both argument parsers, in source order
+    def flag_table(text, default, key):
+        arms = re.findall(r'^\s*((?:"[^"\n]*"\s*\|\s*)*"[^"\n]*")\s*=>', text, re.M)
+        table = [re.findall(r'"([^"\n]*)"', a) for a in arms]
+        table = [t for t in table if all(x.startswith("-") for x in t)]
+        if not table:
+            degraded.append(key); table = default
+        return table
+    tables = {
+        "serverFlagTable": flag_table(config, [["-i", "--ip-address"], ["-p", "--port"], ["-d", "--directory"],
+            ["-rd", "--receive-directory"], ["-sd", "--send-directory"], ["-s", "--single-port"], ["-r", "--read-only"],
+            ["-h", "--help"], ["--duplicate-packets"], ["--overwrite"], ["--keep-on-error"]], "serverFlagTable"),
+        "clientFlagTable": flag_table(cconfig, [["-i", "--ip-address"], ["-p", "--port"], ["-b", "--blocksize"],
+            ["-w", "--windowsize"], ["-t", "--timeout"], ["-rd", "--receive-directory"], ["-u", "--upload"],
+            ["-d", "--download"], ["--keep-on-error"], ["-h", "--help"]], "clientFlagTable"),
+    }
+
     lines = ["/-! GENERATED by tools/extract.py from /repo/src/*.rs on every check run. Do not edit. -/",
              "namespace Tftp.Gen", ""]
     for k in sorted(vals):
@@ -143,6 +160,10 @@ def main():
             lines.append("def %s : Nat := %d" % (k, v))
         else:
             lines.append("def %s : List UInt8 := [%s]  -- %s" % (k, ", ".join(str(b) for b in v.encode()), json.dumps(v)))
+    for k in sorted(tables):
+        rows = ["[" + ", ".join("[" + ", ".join(str(b) for b in x.encode()) + "]" for x in row) + "]" for row in tables[k]]
+        lines.append("def %s : List (List (List UInt8)) := [%s]  -- %s" % (k, ", ".join(rows), json.dumps(tables[k])))
+    vals.update(tables)
     lines += ["def usizeBound : Nat := 18446744073709551616", "", "end Tftp.Gen", ""]
     text = "\n".join(lines)
     old = None
